@@ -1,6 +1,27 @@
-From Pan Require Import Base.Common Base.Sx Run.R06.
+(* op = 100 * property number + sub-op; op 1 = Rnd64 validation *)
+From Pan Require Import Base.Common Base.Sx Run.R01 Run.R02 Run.R03 Run.R04 Run.R05 Run.R06 Run.R07 Run.R08 Run.R09 Run.R10 Run.R11 Run.R12 Run.R13 Run.R14 Run.R15 Run.R16 Run.R17 Run.R18 Run.R19 Run.R20.
 
 Definition dispatch (op : Z) (x : sx) : sx :=
-  if op =? 1 then run_rnd x
-  else if op =? 601 then run_metric x
-  else SL [SZ (-1)].
+  if op =? 1 then run_rnd x else
+  let p := op / 100 in let sub := op mod 100 in
+  if p =? 1 then run_c01 sub x else
+  if p =? 2 then run_c02 sub x else
+  if p =? 3 then run_c03 sub x else
+  if p =? 4 then run_c04 sub x else
+  if p =? 5 then run_c05 sub x else
+  if p =? 6 then run_c06 sub x else
+  if p =? 7 then run_c07 sub x else
+  if p =? 8 then run_c08 sub x else
+  if p =? 9 then run_c09 sub x else
+  if p =? 10 then run_c10 sub x else
+  if p =? 11 then run_c11 sub x else
+  if p =? 12 then run_c12 sub x else
+  if p =? 13 then run_c13 sub x else
+  if p =? 14 then run_c14 sub x else
+  if p =? 15 then run_c15 sub x else
+  if p =? 16 then run_c16 sub x else
+  if p =? 17 then run_c17 sub x else
+  if p =? 18 then run_c18 sub x else
+  if p =? 19 then run_c19 sub x else
+  if p =? 20 then run_c20 sub x else
+  SL [SZ (-1)].
